@@ -543,6 +543,23 @@ pub fn nestf() -> ZooLang {
     }
 }
 
+/// A token that contains the EXTRAS character inside (C14 family (vii) as a zoo language, for the tiling oracle of C02): in the
+/// state after `y` the blank is skipped in front of `inner` and consumed inside it.
+pub fn innersp() -> ZooLang {
+    let g = G::new("innersp")
+        .rule("source", choice(vec![seq(vec![s("x"), sym("plain"), sym("stop")]), seq(vec![s("y"), sym("inner")])]))
+        .rule("plain", pat("[ab]+"))
+        .rule("stop", s("c"))
+        .rule("inner", pat("(b[ ]*)*a?c"))
+        .extras(vec![pat(" ")]);
+    ZooLang {
+        name: "innersp", spec: spec(g, None),
+        lexemes: vec!["x", "y", "a", "b", "c", " "],
+        seeds: vec!["", "xabc", "x ab c", "yc", "yb c", "y b  b ac", "yb b", "y", "xc"],
+        skippable: b" ", has_scanner: false,
+    }
+}
+
 pub fn core_zoo() -> Vec<ZooLang> {
     vec![arith(), stmts(), jsonish(), glr(), lexla(), indent(), pstring(), lookfar(), resv(), colm(), modal(), docol(), nlctx()]
 }
@@ -550,7 +567,7 @@ pub fn core_zoo() -> Vec<ZooLang> {
 pub fn by_name(name: &str) -> Option<ZooLang> {
     match name {
         "arith" => Some(arith()), "stmts" => Some(stmts()), "jsonish" => Some(jsonish()), "glr" => Some(glr()), "lexla" => Some(lexla()),
-        "indent" => Some(indent()), "pstring" => Some(pstring()), "lookfar" => Some(lookfar()), "groups" => Some(groups()), "resv" => Some(resv()), "tmpl" => Some(tmpl()), "tagl" => Some(tagl()), "colm" => Some(colm()), "modal" => Some(modal()), "docol" => Some(docol()), "nlctx" => Some(nlctx()), "seam" => Some(seam()), "nestf" => Some(nestf()),
+        "indent" => Some(indent()), "pstring" => Some(pstring()), "lookfar" => Some(lookfar()), "groups" => Some(groups()), "resv" => Some(resv()), "tmpl" => Some(tmpl()), "tagl" => Some(tagl()), "colm" => Some(colm()), "modal" => Some(modal()), "docol" => Some(docol()), "nlctx" => Some(nlctx()), "seam" => Some(seam()), "nestf" => Some(nestf()), "innersp" => Some(innersp()),
         _ => None,
     }
 }
